@@ -13,6 +13,7 @@ import (
 	"fmt"
 	"reflect"
 	"sort"
+	"strings"
 
 	"github.com/ovn-org/libovsdb/model"
 	"github.com/ovn-org/libovsdb/ovsdb"
@@ -696,6 +697,131 @@ func c10Child(r *ev.Run, batch int) {
 			if comp := cols[p.Intn(len(cols))]; comp.col.Name != cc.col.Name && !comp.col.IsScalar() && !comp.col.IsOptional() {
 				r.Count("two_column_updates", 1)
 				rep(e.together(cc, a, b, comp, comp.random(p)), cc, a, b)
+			}
+		}()
+	}
+	// mutate operations turned into differences: one operation with 1-3 mutations of one
+	// column (insert then delete of what was just inserted, delete by key and by pair,
+	// arithmetic), starting from an empty, small or random value. Accumulation and judgement
+	// are C11's (reference execution gives the new value; the modify row applied to the old
+	// value must give it too); here every case is a single operation.
+	me := &c11env{m: m, t: s.Tables[0]}
+	nm := r.N(1200, 40000)
+	mp := prng.Derive(r.Seed, "C10mutate", batch)
+	for i := 0; i < nm; i++ {
+		cc := cols[mp.Intn(len(cols))]
+		c := cc.col
+		pick := func() ref.Datum {
+			switch mp.Intn(3) {
+			case 0:
+				return ref.Datum{Map: c.IsMap()}
+			case 1:
+				sm := cc.small()
+				return sm[mp.Intn(len(sm))].datum(c.IsMap())
+			}
+			return cc.random(mp).datum(c.IsMap())
+		}
+		initial := ref.Row{}
+		for _, tc := range s.Tables[0].Cols {
+			initial[tc.Name] = ref.Default(tc)
+		}
+		var cur ref.Datum
+		switch {
+		case c.IsMap() || (c.IsSet() && !c.IsScalar() && !c.IsOptional()):
+			cur = pick()
+		case c.IsScalar() && (c.Key.Type == "integer" || c.Key.Type == "real"):
+			// (the library supports arithmetic on scalar columns only and answers anything
+			// else with an error: not a subject of this law)
+			sm := cc.small()
+			cur = sm[mp.Intn(len(sm))].datum(false)
+		default:
+			continue
+		}
+		if c.Max > 0 && cur.Len() > c.Max || cur.Len() < c.Min {
+			continue
+		}
+		initial[c.Name] = cur
+		var muts []ref.Mut
+		seen := cur.Clone()
+		for k := 1 + mp.Intn(3); k > 0; k-- {
+			switch {
+			case c.IsMap():
+				v := pick()
+				switch mp.Intn(3) {
+				case 0:
+					muts = append(muts, ref.Mut{Col: c.Name, Mutator: "insert", Val: v})
+					for j, kk := range v.K {
+						if !seen.Has(kk) {
+							seen = seen.WithPair(kk, v.V[j])
+						}
+					}
+				case 1:
+					// delete by key, preferably keys just seen
+					keys := ref.Datum{}
+					src := seen
+					if mp.Bool() {
+						src = v
+					}
+					for _, kk := range src.K {
+						if mp.Bool() {
+							keys = keys.With(kk)
+						}
+					}
+					muts = append(muts, ref.Mut{Col: c.Name, Mutator: "delete", Val: keys})
+				default:
+					src := seen
+					if mp.Bool() {
+						src = v
+					}
+					d := ref.Datum{Map: true}
+					for j, kk := range src.K {
+						if mp.Bool() {
+							d = d.WithPair(kk, src.V[j])
+						}
+					}
+					muts = append(muts, ref.Mut{Col: c.Name, Mutator: "delete", Val: d})
+				}
+			case c.IsSet() && !c.IsScalar() && !c.IsOptional():
+				v := pick()
+				if mp.Bool() {
+					muts = append(muts, ref.Mut{Col: c.Name, Mutator: "insert", Val: v})
+					for _, kk := range v.K {
+						seen = seen.With(kk)
+					}
+				} else {
+					d := ref.Datum{}
+					src := seen
+					if mp.Chance(1, 3) {
+						src = v
+					}
+					for _, kk := range src.K {
+						if mp.Bool() {
+							d = d.With(kk)
+						}
+					}
+					muts = append(muts, ref.Mut{Col: c.Name, Mutator: "delete", Val: d})
+				}
+			default:
+				arg := ref.Set(ref.Int([]int64{1, 2, -1, 0}[mp.Intn(4)]))
+				if c.Key.Type == "real" {
+					arg = ref.Set(ref.Real([]float64{1, 0.5, -2, 0}[mp.Intn(4)]))
+				}
+				muts = append(muts, ref.Mut{Col: c.Name, Mutator: []string{"+=", "-=", "*="}[mp.Intn(3)], Val: arg})
+			}
+		}
+		ops := []ref.Op{{Kind: "mutate", Table: "T", Where: byUUID(c10UUID), Muts: muts}}
+		r.Eval(1)
+		r.Count("mutate_operations", 1)
+		r.Distinct("m|" + c.Name + cur.String() + fmt.Sprint(opsJSON(ops)))
+		r.LogCase(fmt.Sprintf("C10 mutate %s initial=%s ops=%v", c.Name, cur, opsJSON(ops)))
+		func() {
+			defer func() {
+				if pv := recover(); pv != nil {
+					r.Violation("C10/mutate/panic/"+c.Desc()+"/"+ev.PanicSignature(fmt.Sprint(pv), ""), fmt.Sprintf("panic: %v", pv), map[string]interface{}{"initial": cur.String(), "ops": opsJSON(ops)})
+				}
+			}()
+			for _, f := range me.run(initial, ops, i%2 == 0) {
+				r.Violation(strings.Replace(f.Sig, "C11/", "C10/mutate/", 1), f.What, map[string]interface{}{"column": c.Desc(), "initial": cur.String(), "ops": opsJSON(ops)})
 			}
 		}()
 	}
